@@ -220,6 +220,20 @@ class ConditionalEffectsRemover(engines.engine.Engine, CompilerMixin):
             new_problem, partial(replace_action, map=new_to_old), self.name
         )
 
+    def _instances_of_conditional_effect(
+        self, effect: "up.model.Effect", new_problem: AbstractProblem
+    ) -> List["up.model.Effect"]:
+        # The condition of a conditional effect becomes a precondition of the new actions, so it
+        # can not mention the variables of a forall effect (`forall x. when p(x): q(x)`): such an
+        # effect is replaced by its instances, each with its own (ground) condition.
+        free_vars = effect.environment.free_vars_oracle.get_free_variables(
+            effect.condition
+        )
+        if effect.is_forall() and len(free_vars) > 0:
+            assert isinstance(new_problem, up.model.mixins.ObjectsSetMixin)
+            return list(effect.expand_effect(new_problem))
+        return [effect]
+
     def _create_unconditional_actions(
         self, action: Action, new_problem: AbstractProblem
     ) -> Iterator[Action]:
@@ -232,7 +246,9 @@ class ConditionalEffectsRemover(engines.engine.Engine, CompilerMixin):
         env = new_problem.environment
         simplifier = env.simplifier
         if isinstance(action, up.model.InstantaneousAction):
-            cond_effects = action.conditional_effects
+            cond_effects: List["up.model.Effect"] = []
+            for e in action.conditional_effects:
+                cond_effects.extend(self._instances_of_conditional_effect(e, new_problem))
             for p in powerset(range(len(cond_effects))):
                 new_action = action.clone()
                 new_action.name = get_fresh_name(new_problem, action.name)
@@ -282,7 +298,10 @@ class ConditionalEffectsRemover(engines.engine.Engine, CompilerMixin):
                 action.conditional_effects
             )
             cond_effects_timing: List[Tuple["up.model.Effect", "up.model.Timing"]] = [
-                (e, t) for t, el in timing_cond_effects.items() for e in el
+                (ie, t)
+                for t, el in timing_cond_effects.items()
+                for e in el
+                for ie in self._instances_of_conditional_effect(e, new_problem)
             ]
             for p in powerset(range(len(cond_effects_timing))):
                 new_action = action.clone()
